@@ -113,6 +113,29 @@ pub trait Family: 'static + Sized {
     fn m_abortable(_op: &Self::Op) -> bool {
         true
     }
+    /// Operations recorded as having *no scheduling point in front of them* (known findings F4/F5):
+    /// returns the finding's name. Used only to attribute missing outcomes (C02): the completeness
+    /// check is repeated against a model in which such an operation is fused with the end of the
+    /// same thread's previous operation.
+    fn m_no_sched_point(_op: &GOp<Self::Op>) -> Option<&'static str> {
+        None
+    }
+    /// Fused model only: thread `t`, in the middle of `op`, completes it in the same atomic step as
+    /// its previous micro-transition (e.g. the arrival that releases a barrier returns at once).
+    fn m_fused_continue(_m: &Self::M, _t: usize, _op: &Self::Op) -> bool {
+        false
+    }
+    /// Does the omission apply in this model state (e.g. Barrier::wait omits its scheduling point
+    /// only when the wait will block)?
+    fn m_fuse_applies(_m: &Self::M, _t: usize, _op: &Self::Op) -> bool {
+        true
+    }
+    /// Does this operation always ask the scheduler to yield (yield_now and friends)?  Some(true) =
+    /// the decision that follows its call must carry is_yielding, Some(false) = must not,
+    /// None = not judged (e.g. park, which yields only when it blocks).
+    fn yields(_op: &Self::Op) -> Option<bool> {
+        Some(false)
+    }
     /// Called on the model state when thread `t` finishes.
     fn m_on_finish(_m: &mut Self::M, _t: usize) {}
     /// Weakened model only: thread `t` is held blocked by the modelled defect.
@@ -629,17 +652,37 @@ pub fn explore_program<F: Family>(
         let last_aux = AUX.with(|a| std::mem::take(&mut *a.borrow_mut()));
         let mut axs: Vec<Vec<AuxEntry>> = std::mem::take(&mut *auxs.borrow_mut());
         axs.push(last_aux);
-        if axs.len() != ls.len() {
-            return Err(format!("aux log count {} != execution count {}", axs.len(), ls.len()));
+        // an execution stopped by the scheduler at its very first decision never runs the body:
+        // give it an empty log
+        let mut ls_it = ls.into_iter();
+        let mut ax_it = axs.into_iter();
+        let mut ls2: Vec<Vec<Entry<F::Res>>> = Vec::new();
+        let mut ax2: Vec<Vec<AuxEntry>> = Vec::new();
+        for (path, _) in fin.iter() {
+            let stopped_at_once = path.len() == 1 && matches!(path[0].chosen(), Alt::Stop);
+            if stopped_at_once {
+                ls2.push(Vec::new());
+                ax2.push(Vec::new());
+            } else {
+                match (ls_it.next(), ax_it.next()) {
+                    (Some(l), Some(a)) => {
+                        ls2.push(l);
+                        ax2.push(a);
+                    }
+                    (Some(l), None) => {
+                        ls2.push(l);
+                        ax2.push(Vec::new());
+                    }
+                    _ => {
+                        return Err(format!("explorer finished {} executions but fewer bodies ran — program {}", fin.len(), prog.0.describe()));
+                    }
+                }
+            }
         }
-        if fin.len() != ls.len() {
-            return Err(format!(
-                "explorer finished {} executions but {} bodies ran — program {}",
-                fin.len(),
-                ls.len(),
-                prog.0.describe()
-            ));
+        if ls_it.next().is_some() {
+            return Err(format!("more bodies ran than executions finished — program {}", prog.0.describe()));
         }
+        let (ls, axs) = (ls2, ax2);
         let nfin = fin.len();
         for (i, (((path, stopped), log), aux)) in fin.into_iter().zip(ls.into_iter()).zip(axs.into_iter()).enumerate() {
             let raw = if i + 1 == nfin && last_ending != RawEnding::Ok {
@@ -955,7 +998,73 @@ pub struct ModelStats {
 }
 
 /// Explicit-state breadth-first exploration of the model of `p`; returns the outcome set.
+/// After thread `t` completed an operation: run its following no-scheduling-point operations in the
+/// same atomic step (weakened completeness model for the recorded findings F4/F5).
+fn fuse_follow<F: Family>(p: &Program<F>, mut s: GState<F>, t: usize, strict: bool) -> GState<F> {
+    loop {
+        if s.panic.is_some() || s.th[t].st != St::Active {
+            return s;
+        }
+        let pc = s.th[t].pc as usize;
+        if pc < p.threads[t].len() && s.th[t].phase != 0 {
+            // mid-operation: does it complete in the same step?
+            if let GOp::Op(o) = &p.threads[t][pc] {
+                if F::m_fused_continue(&s.m, t, o) {
+                    let steps = g_steps_raw(p, &s, t, strict);
+                    if steps.len() == 1 && matches!(steps[0].1, Label::Ret(..)) {
+                        s = steps[0].2.clone();
+                        continue;
+                    }
+                }
+            }
+            return s;
+        }
+        if pc >= p.threads[t].len() || F::m_no_sched_point(&p.threads[t][pc]).is_none() || s.th[t].phase != 0 {
+            return s;
+        }
+        if let GOp::Op(o) = &p.threads[t][pc] {
+            if !F::m_fuse_applies(&s.m, t, o) {
+                return s;
+            }
+        }
+        // the first micro-transition of the operation (its whole effect, or its "arrive") happens in
+        // the same atomic step as the end of the previous operation
+        let steps = g_steps_raw(p, &s, t, strict);
+        if steps.len() != 1 {
+            return s;
+        }
+        let was_ret = matches!(steps[0].1, Label::Ret(..));
+        if !was_ret && !matches!(steps[0].1, Label::Eps) {
+            return s;
+        }
+        s = steps[0].2.clone();
+        let _ = was_ret; // after an "arrive" the loop checks whether the operation completes at once
+    }
+}
+
+/// Names of the known no-scheduling-point findings whose operations occur in `p` (not as the very
+/// first operation of a thread, where being scheduled is itself a decision).
+pub fn no_sched_findings<F: Family>(p: &Program<F>) -> Vec<&'static str> {
+    let mut v = Vec::new();
+    for th in &p.threads {
+        for (i, op) in th.iter().enumerate() {
+            if i > 0 {
+                if let Some(n) = F::m_no_sched_point(op) {
+                    if !v.contains(&n) {
+                        v.push(n);
+                    }
+                }
+            }
+        }
+    }
+    v
+}
+
 pub fn model_outcomes<F: Family>(p: &Program<F>, strict: bool, max_states: usize) -> (BTreeSet<Outcome<F::Res>>, ModelStats) {
+    model_outcomes_ex(p, strict, max_states, false)
+}
+
+pub fn model_outcomes_ex<F: Family>(p: &Program<F>, strict: bool, max_states: usize, fuse: bool) -> (BTreeSet<Outcome<F::Res>>, ModelStats) {
     let mut seen: HashSet<GState<F>> = HashSet::new();
     let mut q: VecDeque<(GState<F>, usize)> = VecDeque::new();
     let mut outs = BTreeSet::new();
@@ -968,9 +1077,10 @@ pub fn model_outcomes<F: Family>(p: &Program<F>, strict: bool, max_states: usize
         let mut any = false;
         if s.panic.is_none() {
             for t in 0..p.threads.len() {
-                for (_l, n) in g_steps_of(p, &s, t, strict) {
+                for (l, n) in g_steps_of(p, &s, t, strict) {
                     any = true;
                     stats.transitions += 1;
+                    let n = if fuse && matches!(l, Label::Ret(..) | Label::Eps) { fuse_follow(p, n, t, strict) } else { n };
                     if seen.len() >= max_states {
                         stats.capped = true;
                         continue;
@@ -1260,6 +1370,7 @@ pub fn cosim<F: Family>(p: &Program<F>, mc: &mut MCache<F>, rec: &ExecRecord<F::
     let mut called = vec![0usize; n];
     let mut pcs = vec![0usize; n]; // ops returned so far per thread (uniform over candidates)
     let mut started = vec![false; n];
+    let mut last_call_stamp: Vec<Option<usize>> = vec![None; n];
     let mut inferred = vec![false; n]; // task id inferred from spawn order (async spawns carry no id)
     let mut next_task_id = 1usize;
     let mut cands: u32 = mc.init_set;
@@ -1340,6 +1451,7 @@ pub fn cosim<F: Family>(p: &Program<F>, mc: &mut MCache<F>, rec: &ExecRecord<F::
                 }
                 EKind::Call => {
                     called[e.thread] = e.op + 1;
+                    last_call_stamp[e.thread] = Some(e.stamp);
                     cands = mc.closure(p, cands, e.thread, true, true);
                 }
                 EKind::ChildTask(tid) => {
@@ -1406,6 +1518,69 @@ pub fn cosim<F: Family>(p: &Program<F>, mc: &mut MCache<F>, rec: &ExecRecord<F::
             break;
         }
         let node = &rec.path[d - 1];
+        // ---- Scheduler-interface contract at this decision (C08)
+        if fail.is_none() {
+            if let NodeKind::Task { offered, current, yielding } = &node.kind {
+                let mut bad: Option<String> = None;
+                if offered.is_empty() {
+                    bad = Some("empty list of runnable tasks".into());
+                } else if !offered.windows(2).all(|w| w[0].id < w[1].id) {
+                    bad = Some(format!("runnable list not in strictly ascending id order: {:?}", offered.iter().map(|o| o.id).collect::<Vec<_>>()));
+                } else if offered.iter().any(|o| !o.runnable && !o.spurious) {
+                    bad = Some("a task that is neither runnable nor spuriously wakeable was offered".into());
+                }
+                // `current` = the task chosen at the previous task decision (None before the first)
+                let prev_chosen = rec.path[..d - 1].iter().rev().find_map(|n| match (&n.kind, n.chosen()) {
+                    (NodeKind::Task { .. }, Alt::Task(t)) => Some(*t),
+                    _ => None,
+                });
+                if bad.is_none() && *current != prev_chosen {
+                    bad = Some(format!("current_task = {:?} but the task chosen at the previous decision was {:?}", current, prev_chosen));
+                }
+                // is_yielding: exactly for the decision following an explicit yield request
+                if bad.is_none() {
+                    if let Some(rt) = running {
+                        let pending = pcs[rt] < p.threads[rt].len() && called[rt] > pcs[rt];
+                        let first_after_call = last_call_stamp[rt] == Some(stamp);
+                        let expect: Option<bool> = if pending && first_after_call {
+                            match &p.threads[rt][pcs[rt]] {
+                                GOp::Op(o) => F::yields(o),
+                                _ => Some(false),
+                            }
+                        } else if pending {
+                            // later decisions inside the same operation (e.g. re-polls): not judged
+                            None
+                        } else if pcs[rt] == p.threads[rt].len() {
+                            // the program of this thread is over: thread-local destructors (arbitrary
+                            // code, may yield) run now — not judged
+                            None
+                        } else {
+                            Some(false)
+                        };
+                        if let Some(ex) = expect {
+                            if ex != *yielding {
+                                bad = Some(format!(
+                                    "is_yielding = {} at the decision after thread {}'s {}",
+                                    yielding,
+                                    rt,
+                                    if pending { format!("call of {:?}", OpDbg(&p.threads[rt][pcs[rt]])) } else { "last completed operation".to_string() }
+                                ));
+                            }
+                        }
+                    } else if *yielding {
+                        bad = Some("is_yielding set at the first decision".into());
+                    }
+                }
+                if let Some(b) = bad {
+                    fail = Some(CosimFail {
+                        kind: FailKind::Contract,
+                        culprit: "scheduler-arguments".into(),
+                        at_decision: d,
+                        what: format!("at decision {}: {}", d, b),
+                    });
+                }
+            }
+        }
         match (&node.kind, node.chosen()) {
             (NodeKind::Task { offered, .. }, alt) => {
                 if check_enabled && fail.is_none() {
